@@ -175,6 +175,12 @@ Theorem bytes_binstr_roundtrip : forall b p, bytes_ok b -> b <> [] ->
 Proof. exact Lemmas.IntBytes.bytes_binstr_roundtrip. Qed.
 Print Assumptions bytes_binstr_roundtrip.
 
+Theorem binstr_errors : forall s pad e,
+  (IntBytes.int_from_binstr s = Err e -> e = ValueError) /\
+  (IntBytes.bytes_from_binstr s pad = Err e -> e = ValueError).
+Proof. intros s pad e. split; [exact (Lemmas.IntBytes.int_from_binstr_err s e)|exact (Lemmas.IntBytes.bytes_from_binstr_err s pad e)]. Qed.
+Print Assumptions binstr_errors.
+
 (* hex *)
 Theorem hex_roundtrip : forall b, bytes_ok b ->
   IntBytes.from_hex_string (IntBytes.to_hex_string b) = Ok b.
@@ -274,6 +280,17 @@ Theorem b32_decode_custom_foreign : forall s c ch, In ch s -> ~ In ch c -> ch <>
   Codecs.b32_decode s (Some c) = Err ValueError.
 Proof. exact Base32Ok.b32_decode_custom_foreign. Qed.
 Print Assumptions b32_decode_custom_foreign.
+
+Theorem b32_decode_err : forall s custom e, Codecs.b32_decode s custom = Err e -> e = ValueError.
+Proof. exact Base32Ok.b32_decode_err. Qed.
+Print Assumptions b32_decode_err.
+
+(* decode-then-encode does NOT hold for Base32 (b32decode does not check the left-over bits): "AB" and "AA"
+   both decode to 0x00.  Material for C10; C11 (decode . encode = id, standard text) is unaffected. *)
+Theorem b32_canonical_refuted :
+  Codecs.b32_decode [65; 66] None = Ok [0] /\ Codecs.b32_encode_no_padding [0] None = Ok [65; 65].
+Proof. exact Base32Ok.b32_canonical_refuted. Qed.
+Print Assumptions b32_canonical_refuted.
 
 (* ------------------------------------------------------------------ SS58 *)
 (* blake2b-512 is an oracle; the theorems assume only that its output has 64 bytes.
